@@ -1193,7 +1193,9 @@ def to_digits_exp(s, dps):
     # First, calculate mantissa digits by converting to a binary
     # fixed-point number and then converting that number to
     # a decimal fixed-point number.
-    fixprec = max(bitprec - exp - bc, 0)
+    # keep every bit of the mantissa: truncating it here can move the value
+    # across a decimal rounding boundary (x slightly above a tie printed down)
+    fixprec = max(bitprec - exp - bc, -exp, 0)
     fixdps = int(fixprec / math.log(10,2) + 0.5)
     sf = to_fixed(s, fixprec)
     sd = bin_to_radix(sf, fixprec, 10, fixdps)
